@@ -89,7 +89,15 @@ fn address_case() -> impl Strategy<Value = ExecCase> {
 }
 
 fn pex_case() -> impl Strategy<Value = ExecCase> {
-    (solution_set(), 0u8..8, any::<u32>(), any::<u32>(), gen::bytes32()).prop_map(|((sols, ix), mode, pick, pos, random)| {
+    (solution_set(), 0u8..8, any::<u32>(), any::<u32>(), gen::bytes32(), 0u8..3).prop_map(|((mut sols, ix), mode, pick, pos, random, share)| {
+        // several solutions for the same predicate (same addresses, different data): each must be found
+        if share == 0 && sols.len() >= 2 {
+            let (c, p) = (sols[0].contract, sols[0].predicate);
+            for s in sols.iter_mut().skip(1) {
+                s.contract = c;
+                s.predicate = p;
+            }
+        }
         let target = &sols[gen::pick_ix(pick, sols.len())];
         let mut near = target.clone();
         let hash: [u8; 32] = match mode {
